@@ -15,9 +15,11 @@ PROP = "C13"
 PROPS_V = "theories/Props/C13.v"
 THEOREMS = ["C13_gate_sound", "C13_auth_sound", "C13_gate_unix_sound", "C13_gate_http_sound",
             "C13_can_read_spec", "C13_can_write_spec", "C13_revoke_key_next", "C13_revoke_perm_next",
-            "C13_reserved_id_creatable", "C13_no_identity_commands", "C13_authorized_only_refuted",
-            "C13_outside_known", "C13_served_outside_known", "C13_grant_many_eq_fold", "C13_revoke_many_eq_fold",
-            "C13_dispatch_grant_many", "C13_grant_many_entry", "C13_revoke_many_entry"]
+            "C13_reserved_id_rejected", "C13_no_reserved_account", "C13_gate_never_reserved",
+            "C13_gate_unix_never_reserved", "C13_gate_http_never_reserved", "C13_no_identity_commands",
+            "C13_authorized_only_refuted", "C13_outside_known", "C13_served_outside_known",
+            "C13_served_unix_outside_known", "C13_served_http_outside_known", "C13_grant_many_eq_fold",
+            "C13_revoke_many_eq_fold", "C13_dispatch_grant_many", "C13_grant_many_entry", "C13_revoke_many_entry"]
 RULE = ("histories of probe lines against one engine process each (auth ON): (a) the full role-set x "
         "permission-entry table and random grant/revoke/revoke-key sequences through AuthManager with "
         "can_read/can_write/is_admin after every step; (b) parse_auth / verify_signature / session-token lines "
@@ -48,7 +50,7 @@ TRUSTED = [
 
 CLAIMED = True
 MANIFEST = {
- "level_text": "Theorems over the model (all stores, lines, users, no bound): the TCP/unix/HTTP gates dispatch only on hmac(key,msg) of an active user for the right message or a live token of an active user; can_read/can_write are equivalent to a declarative RBAC statement; key and permission revocation hold for the next request; the main statement is refuted with four witnesses (reserved id 'bypass', identity-less REPLAY/SHOW/REMEMBER/comparison, FLUSH, unchecked sequence tail) and proved outside those classes. The handler flags and constants of the model are regenerated from the Rust text; the model is run against the real AuthManager, gates (loopback TCP/HTTP, unix Connection) and dispatcher.",
+ "level_text": "Theorems over the model (all stores, lines, users, no bound): the TCP/unix/HTTP gates dispatch only on hmac(key,msg) of an active user for the right message or a live token of an active user; can_read/can_write are equivalent to a declarative RBAC statement; key and permission revocation hold for the next request; the reserved ids cannot be created, exist in no reachable state and are never the identity a gate hands on (repaired by 139a8cf); the main statement is refuted with three witnesses (identity-less REPLAY/SHOW/REMEMBER/comparison, FLUSH, unchecked sequence tail) and proved outside those classes for every user id, end to end through the TCP, unix and HTTP gates. The handler flags and constants of the model are regenerated from the Rust text; the model is run against the real AuthManager, gates (loopback TCP/HTTP, unix Connection) and dispatcher.",
  "design_ref": "DESIGN.md §6 C13",
  "level_note": "Trusted: Coq kernel; p30_auth.py; extraction + p_auth.ml (incl. its HMAC-SHA256); the Rust harness; the Python policy oracle. HMAC and the parser are uninterpreted; Unicode ids/whitespace, rate limiting and the WebSocket fast path are not modelled; check_auth is reached through a loopback socket until hooks/C13-check-auth.diff is applied."
 }
@@ -70,24 +72,6 @@ def sign(key, msg):
 
 def corpus():
     return base.corpus_for(PROP)
-
-
-# The check reads known findings from /verif/known_findings.json, which tools/gen_manifest.py
-# assembles from known/*.json.  Until the maintainer has re-run it after merging this branch the
-# entries of known/C13.json are not in there yet; fall back to the per-property file (same format).
-_orig_load_known = vlib.load_known
-
-
-def _load_known(prop):
-    got = _orig_load_known(prop)
-    if prop == PROP and not got:
-        p = os.path.join(vlib.VERIF, "known", "C13.json")
-        if os.path.exists(p):
-            got = [k for k in json.load(open(p)) if k.get("property") == prop]
-    return got
-
-
-vlib.load_known = _load_known
 
 
 # ------------------------------------------------------------------ descriptors
@@ -330,7 +314,7 @@ def gen_gate(rng, tier, idx):
     h.mk("gx", users["gx"], ["admin"])
     h.revkey("gx")
     h.mk("bypass", users["bypass"], [])
-    active = {"ga", "gb", "bypass"}
+    active = {"ga", "gb"}        # "bypass" cannot be created since 139a8cf: its credentials are never valid
 
     def store(t):
         return f'STORE {t} FOR c1 PAYLOAD {{"k":{rng.below(100)},"s":"v"}}'
@@ -1021,12 +1005,22 @@ def returned_types(out):
     return []
 
 
-def judge_command(pol, who, desc, status, out):
-    """-> (why or None).  `status` is the implementation's status code as a string."""
+RESERVED = ("bypass", "no-auth")
+
+
+def judge_command(pol, who, desc, status, out, injected=False):
+    """-> (why or None).  `status` is the implementation's status code as a string.
+    `injected`: the identity was handed to dispatch_command by the harness, not produced by a gate."""
     kind, a = parse_desc(desc)
     executed = status not in ("401", "403", "PARSE", "PARSEERR", "PANIC", "EOF", "AUTHFAIL", "ABORT", "TOKEN")
     why = None
-    if executed and kind not in ("bad", "batch"):
+    if kind == "mku" and status == "200" and a["u"] in RESERVED:
+        return f"an account was created under the reserved id {a['u']!r}"
+    # dispatch_command(.., Some("bypass")) is the contract of bypass_auth mode; since 139a8cf no account and no
+    # gate can produce that identity (gate lines with it are judged as invalid credentials), so an injected
+    # "bypass" is judged only if such an account nevertheless exists.
+    judged = not (injected and who == "bypass" and not pol.known(who))
+    if executed and judged and kind not in ("bad", "batch"):
         who_s = repr(who) if who is not None else "<no identity>"
         if kind == "st":
             if not all(pol.may_write(who, t) for t in a["types"]):
@@ -1104,7 +1098,7 @@ def judge_history(full, outs):
         if out in ("ABORT", "UNKNOWN_PROBE") or (out or "").startswith("MODEL_EXN"):
             why = f"probe did not answer: {out}"
         elif op == "cmd":
-            why = judge_command(pol, c.get("who"), c["desc"], st, out)
+            why = judge_command(pol, c.get("who"), c["desc"], st, out, injected=True)
             if why is None and c["desc"].startswith("shp:") and st == "200" and perms_of(out) is not None:
                 tu = parse_desc(c["desc"])[1]["u"]
                 if tu in pol.users:
@@ -1114,6 +1108,8 @@ def judge_history(full, outs):
             if cred.get("auth"):
                 if st == "TOKEN" and not cred.get("valid"):
                     why = f"AUTH accepted without a valid signature of an active user ({c.get('note')})"
+            elif st in ("D", "TOKEN") and len(out.split(" ")) > 1 and bytes.fromhex(out.split(" ")[-1] if out.split(" ")[-1] != "-" else "").decode("utf-8", "replace") in RESERVED:
+                why = f"check_auth attributed a line to a reserved id: {c.get('note')}"
             elif st == "D" and not cred.get("valid"):
                 why = f"check_auth handed the line on without valid credentials: {c.get('note')}"
             elif st == "D" and cred.get("user") is not None and bytes.fromhex(out.split(" ")[2]).decode("utf-8", "replace") != cred.get("user"):
@@ -1131,6 +1127,8 @@ def judge_history(full, outs):
         elif op == "mk":
             if out == "OK":
                 pol.add_user(c["u"], c.get("roles"))
+                if c["u"] in RESERVED:
+                    why = f"create_user accepted the reserved id {c['u']!r}"
         elif op == "mkdup":
             if out == "OK":
                 why = "create_user replaced an existing user"
@@ -1189,8 +1187,6 @@ def classify(c, impl_out):
         return "UncheckedReadCommand"
     if kind == "flush":
         return "FlushNoRole"
-    if who == "bypass" and kind in CHECKED:
-        return "ReservedUserId"
     if kind == "q" and a.get("tail"):
         return "SequenceTailUnchecked"
     return None
